@@ -92,6 +92,16 @@ POSITIONS = {
     "assign_mut_float": ("def t({SIG}) -> None:\n    mut m: float = 1.0\n    m = {E}\n", "float"),
     "nested_let_int": ("def t({SIG}) -> None:\n    if i > 0:\n        for k in range(2):\n            x: int = {E}\n", "int"),
 }
+COMPOUND_BLOCKS = {
+    "body": "{S}",
+    "if": "if i > 0:\n    {S}",
+    "else": "if i > 0:\n    pass\nelse:\n    {S}",
+    "elif": "if i > 0:\n    pass\nelif j > 0:\n    {S}",
+    "while": "while i > 0:\n    {S}\n    break",
+    "for": "for it in range(2):\n    {S}",
+    "for_if": "for it in range(2):\n    if i > 0:\n        {S}",
+    "match_arm": "match i:\n    case 0:\n        {S}\n    case _:\n        pass",
+}
 COMPOUND = {"+=": "+", "-=": "-", "*=": "*", "/=": "/", "//=": "//", "%=": "%"}
 
 
@@ -147,11 +157,15 @@ def run(tier):
     for cop, bop in COMPOUND.items():
         for (rn, (rtxt, rt)) in OPERANDS.items():
             for mt, init in (("int", "1"), ("float", "1.0")):
-                src = HEAD + f"def t({SIG}) -> None:\n    mut m: {mt} = {init}\n    m {cop} {rtxt}\n"
-                ty = table(bop, mt, rt)
-                reqs.append({"id": k, "op": "types", "src": src})
-                meta.append(((f"compound:{cop}", f"target:{mt}", f"r:{rn}"), f"m {cop} {rtxt}", ty, f"compound_{mt}", mt, src))
-                k += 1
+                # the statement in the function body and in every kind of nested block (the variable lives in the outer scope)
+                for bk, blk in COMPOUND_BLOCKS.items():
+                    stmt = blk.replace("{S}", f"m {cop} {rtxt}")
+                    src = HEAD + f"def t({SIG}) -> None:\n    mut m: {mt} = {init}\n" + "".join("    " + l + "\n" for l in stmt.split("\n"))
+                    ty = table(bop, mt, rt)
+                    reqs.append({"id": k, "op": "types", "src": src})
+                    ctx = () if bk == "body" else (f"block:{bk}",)
+                    meta.append(((f"compound:{cop}", f"target:{mt}", f"r:{rn}") + ctx, f"m {cop} {rtxt}", ty, f"compound_{mt}", mt, src))
+                    k += 1
     # const initialisers (literal expressions only)
     for op in ARITH:
         for l, lt in (("7", "int"), ("7.5", "float")):
@@ -240,7 +254,7 @@ def run(tier):
         "distinct_nontrivial": len(sig_ok),
         "rule": "every operator (7 arithmetic, 6 comparison) x left operand kind x right operand kind (int/float literal, variable, parenthesised sub-expression), every `**` "
         "exponent kind (non-negative / zero / negative literal, int variable, int sub-expression, float literal / variable), depth-2 (thorough: depth-3) nestings over int/float "
-        "variables; each in 7 binding positions + 6 compound assignments x 6 right-hand kinds x int/float target + const initialisers; static oracle = the table of "
+        "variables; each in 7 binding positions + 6 compound assignments x 6 right-hand kinds x int/float target x 8 block contexts (function body, if, else, elif, while, for, for+if, match arm) + const initialisers; static oracle = the table of "
         "numeric_semantics.md against the checker's recorded expression type and its accept/reject verdict; dynamic oracle = every accepted annotated binding compiles with rustc "
         "(quick: every third)",
         "samples": [{"sig": list(s), "expr": e, "table_type": t} for s, e, t in common.pick_samples(exprs)],
